@@ -16,7 +16,7 @@ LEVEL_TEXT = {
  "C05": "TLC checks exhaustively, on DynamicPGM.tla (an action-per-critical-section transcription of insert/merge cascade and of find/lower_bound), that point queries equal the ordered-map meaning for every history of the small configurations (incl. every history of any length over 4 keys in thorough); the real class is bound to it by trace validation: every answer of find/count/lower_bound after every update of seeded, TLC-generated and witness histories is judged by TLC against the map (tier A), and the logged layout must equal the model's state (tier B).",
  "C06": "as C05 for traversal from begin()/every lower_bound, range(lo,hi) for every lo<=hi, size and empty: the iterator (cursor per level + loser-tree tie-breaking, equal-key and tombstone skipping) and range() are transcribed in DynamicPGM.tla and checked by TLC; every recorded traversal/range/size/empty of the real class is judged by TLC. The tournament tree itself is modelled cell by cell in LoserTree.tla (WinnerIsMin, TournamentOK, liveness Drained on every choice of <= 4-5 short sequences; a replay without the source tie-break must fail) and the real pgm::internal::LoserTree, driven as the iterator drives it, is validated against it line by line.",
  "C07": "C07a/C07b are invariants of PGMIndex.tla (responsible segment within EpsRec+1 of the prediction, <= 2EpsRec+3 segments touched, scan inside the window, level sizes) on all small inputs; on the code side hook H2 records the descent of every query (predicted position, window, chosen segment, level size) and hook H1 the segmentation of every upper level; TLC checks the same bounds and that the chosen segment is the rightmost one starting at or before the key.",
- "C08": "tier A holds CompressedPGMIndex to the search contract on every recorded query (all arrays of small universes, structured and clustered 64-bit inputs, EpsRec 0 / small / 256); levels much longer than the routing window with EpsRec just above the linear-scan threshold, forced and real chunked builds); the per-level routing (window scan and windowed binary search) is model-checked in Variants.tla under the premise that the prediction is within EpsRec+1 of the responsible segment, Compressed.tla transcribes the one-level index with exact rational geometry (slope ranges from the builder's rectangle, sorted and greedily intersected, shared midpoint slope, intercept through the intersection of the extreme lines with ties either way, clamped and offset intercepts, search with the float product as bounded nondeterminism) and TLC checks the contract on every array of S(10,7)/S(10,8) (thorough S(12,8)/S(12,9)) - with a first level built in chunks it must fail (F16) -, recorded one-level builds must equal the model's keys and decoded intercepts (tier B); CompIntercepts.tla checks the clamped, Elias-Fano coded intercepts (builder preconditions, decoded value within Eps of the rank, and NoUpwardShift: the lower clamp never binds when segments start > 2 Eps ranks apart - the chunk-seam variant must fail), and the PGMIndex search model covers the rest.",
+ "C08": "tier A holds CompressedPGMIndex to the search contract on every recorded query (all arrays of small universes, structured and clustered 64-bit inputs, EpsRec 0 / small / 256); levels much longer than the routing window with EpsRec just above the linear-scan threshold, forced and real chunked builds); the per-level routing (window scan and windowed binary search) is model-checked in Variants.tla under the premise that the prediction is within EpsRec+1 of the responsible segment, Compressed.tla transcribes the one-level and the recursive index with exact rational geometry (slope ranges from the builder's rectangle, sorted and greedily intersected, shared midpoint slope, intercept through the intersection of the extreme lines with ties either way, clamped and offset intercepts, search with the float product as bounded nondeterminism) and TLC checks the contract on every array of S(10,7)/S(10,8) (thorough S(12,8)/S(12,9)) - with a first level built in chunks it must fail (F16) -, recorded builds (one-level and recursive, n <= 48) must equal the model's keys and decoded intercepts at every stored level (tier B); CompIntercepts.tla checks the clamped, Elias-Fano coded intercepts (builder preconditions, decoded value within Eps of the rank, and NoUpwardShift: the lower clamp never binds when segments start > 2 Eps ranks apart - the chunk-seam variant must fail), and the PGMIndex search model covers the rest.",
  "C09": "Variants.tla (bucketing mode) enumerates every set of segment keys of a 3-bit (thorough: 4-bit) universe for TopLevelSize 2,3,4,5,8: the table fill with its overflow guard and the bucket->slice->upper_bound-1 lookup return the responsible segment and stay in bounds; recordings expose step, table, bucket, slice and chosen segment of every query through a subclass and TLC checks the same, plus the search contract and the empty ranges outside [first,last].",
  "C10": "Variants.tla (eliasfano mode) encodes every non-decreasing key set of the small universe with low widths 1..3 and transcribes pred() branch by branch (beyond-universe, bucket selection by select0, binary search on the low bits, prev on the high bits): TLC checks it returns the rightmost element <= key and never selects out of range; recordings log pred() (friend accessor) for every query and TLC checks it against the segment keys, plus the search contract.",
  "C11": "Mapped.tla (queries mode) checks lower_bound / upper_bound (bounded search + gallop + final search) / count / contains against the sequence oracles for every sorted sequence with long runs over a tiny universe, every admissible range of the abstract static index and every query; recordings log the answers of every open container and the sequence read back through begin()/end(), judged by TLC.",
@@ -38,7 +38,7 @@ NOTE = {
  "C05": "trusted: TLC, the recorder's projection (harness/rec_dynamic.cpp + access.hpp), rank relabelling of keys; exhaustive only for Base=2/MinLevel=1/<=5 keys, sampled beyond",
  "C06": "trusted: TLC, the recorder's projection; traversals are capped at 4*U+16 steps (an overrun is logged and rejected)",
  "C07": "trusted: TLC, hooks H1/H2 (read-only logging inside segment_for_key and make_segmentation)",
- "C08": "the merged-slope geometry is modelled for one level only (EpsilonRecursive = 0, exact rationals, arrays up to 7-9 keys); for the recursive variant the slopes of all levels are merged together, which is held to the contract on recordings only; float slopes are abstracted as exact-or-one-less products and either-way ties",
+ "C08": "the merged-slope geometry is modelled with exact rationals on arrays of up to 7-9 keys (one level, and root + one stored level); deeper recursion is held to the contract on recordings and to build equality (tier B) only; float slopes are abstracted as exact-or-one-less products and either-way ties",
  "C09": "trusted: TLC, the subclass exposing protected members; exhaustive for 3/4-bit universes only",
  "C10": "trusted: TLC, friend accessor for pred(); the Elias-Fano model covers universes up to 15 and low widths 1..3",
  "C11": "trusted: TLC; the static index under the container is abstract in the model",
